@@ -474,6 +474,14 @@ def run_load(desc):
     import processor_utils
 
     arg = copy.deepcopy(desc)
+    # units written with equal capability / memory-access lists SHARE one list object — what a YAML anchor (`&caps` /
+    # `*caps`) or a caller re-using a list gives; a description means the same whether or not its lists are shared
+    # (seeded change C10-10: in-place trimming of a shared list)
+    shared = {}
+    for u in arg.get("units", []) if isinstance(arg, dict) else []:
+        for key in ("capabilities", "memoryAccess"):
+            if isinstance(u, dict) and isinstance(u.get(key), list):
+                u[key] = shared.setdefault((key, json.dumps(u[key])), u[key])
     try:
         with core.watchdog(TIMEOUT):
             p = processor_utils.load_proc_desc(arg)
